@@ -224,6 +224,26 @@ Definition sort_plugins (l : list discovered) : list discovered := sort_by idx_l
 Definition start_plugins (oc : discovered -> outcome) (ds : list discovered) : list discovered :=
   sort_plugins (synced oc (started oc ds)).
 
+(* plugin.RegisterPlugin.  Only an EXTERNAL plugin (one that connected to the socket) is validated and named by its
+   request — empty name or malformed index: the registration fails —; a plugin launched by the runtime keeps the
+   identity taken from its file name whatever name and index its request declares, and its registration succeeds *)
+Definition register_plugin (external : bool) (p : discovered) (req_name req_idx : string) : option discovered :=
+  if external
+  then if String.eqb req_name "" then None
+       else if check_index req_idx then Some {| d_idx := req_idx; d_base := req_name; d_cfg := d_cfg p |} else None
+  else Some p.
+
+(* startPlugins with the declared identities made explicit: decl p = (name, index) of p's RegisterPlugin request;
+   `external` is false for every launched plugin (the parameter exists for the refuted variant) *)
+Definition registered (external : bool) (decl : discovered -> string * string) (oc : discovered -> outcome)
+    (ds : list discovered) : list discovered :=
+  flat_map (fun p => if (launches (oc p) && starts (oc p))%bool
+                     then match register_plugin external p (fst (decl p)) (snd (decl p)) with Some q => [q] | None => [] end
+                     else []) ds.
+Definition start_plugins_declared (decl : discovered -> string * string) (oc : discovered -> outcome)
+    (ds : list discovered) : list discovered :=
+  sort_plugins (synced oc (registered false decl oc ds)).
+
 (* Adaptation.Start restricted to pre-installed plugins: None = Start failed *)
 Definition adaptation_start (es : list dirent) (d : dropin_dir) (oc : discovered -> outcome)
   : option (list discovered) :=
